@@ -24,6 +24,25 @@ pub struct PanicInfo {
 thread_local! {
     static LAST_PANIC: RefCell<Option<PanicInfo>> = const { RefCell::new(None) };
     static IN_GUARD: RefCell<u32> = const { RefCell::new(0) };
+    static UNGUARDED: RefCell<Option<(String, String)>> = const { RefCell::new(None) };
+}
+
+/// Location (raw path:line) and message of the last panic that happened outside `guard` on this thread.
+pub fn take_unguarded() -> Option<(String, String)> {
+    UNGUARDED.with(|p| p.borrow_mut().take())
+}
+
+/// A panic location belongs to the library under test iff it is an absolute path (path dependency outside this
+/// crate) that is neither the cargo registry nor the standard library.
+pub fn is_library_location(raw: &str) -> bool {
+    raw.starts_with('/') && !raw.contains("/.cargo/registry/") && !raw.starts_with("/rustc/") && !raw.contains("/rustlib/")
+}
+
+pub fn strip_location(raw: &str) -> String {
+    match raw.find("/src/") {
+        Some(i) if is_library_location(raw) => raw[i + 1..].to_string(),
+        _ => raw.to_string(),
+    }
 }
 
 static INSTALL: Once = Once::new();
@@ -34,6 +53,17 @@ pub fn install_hook() {
         panic::set_hook(Box::new(move |info| {
             let inside = IN_GUARD.with(|g| *g.borrow() > 0);
             if !inside {
+                // outside `guard`: remember where it happened (the runner decides whether it is the library's or the
+                // simulator's own code) and let the default hook print it
+                let raw = info.location().map(|l| format!("{}:{}", l.file(), l.line())).unwrap_or_default();
+                let msg = if let Some(s) = info.payload().downcast_ref::<&str>() {
+                    (*s).to_string()
+                } else if let Some(s) = info.payload().downcast_ref::<String>() {
+                    s.clone()
+                } else {
+                    "<non-string payload>".to_string()
+                };
+                UNGUARDED.with(|p| *p.borrow_mut() = Some((raw, msg)));
                 default(info);
                 return;
             }
